@@ -431,6 +431,16 @@ class FnText:
         self.text = self.text[:a] + "\n" + spec.rstrip() + "\n" + self.text[a:]
         self._scan()
 
+    def loop_body_start(self, ordinal, text):
+        """insert text right after the opening brace of the n-th loop's body"""
+        ls = self.loops()
+        if not (1 <= ordinal <= len(ls)):
+            raise RsxError("loop ordinal %d: function has %d loops" % (ordinal, len(ls)))
+        _, brace = ls[ordinal - 1]
+        b = self.toks[brace].b
+        self.text = self.text[:b] + "\n" + text + "\n" + self.text[b:]
+        self._scan()
+
     def desugar_for(self, ordinal, itname=None):
         """rule R9: `for P in E { B }` -> `let mut it = (E).into_iter(); loop { let P = match it.next() { Some(x) => x, None => break }; B }`
         The loop keeps its ordinal."""
